@@ -164,6 +164,17 @@ def mkexc(name, msg):
         return EXC[name](msg, ('generated.py', 3, 7, 'def broken(:\n', 3, 8))
     if name == 'SystemExit':
         return SystemExit(3)
+    # messages of other shapes: none at all, blank, starting with a newline
+    if name == 'Empty':
+        return ValueError()
+    if name == 'NIEbare':
+        return NotImplementedError()
+    if name == 'AssertBare':
+        return AssertionError()
+    if name == 'Blank':
+        return ValueError('   ')
+    if name == 'NLfirst':
+        return ValueError('\nsecond line of ' + msg)
     return EXC[name](msg)
 
 
@@ -426,7 +437,8 @@ def _do_writes(ws):
             continue
         st = sys.stdout if stream == 'o' else sys.stderr
         if via:
-            st.buffer.write(text.encode('utf-8'))
+            # via == 'latin1': raw bytes that are not UTF-8
+            st.buffer.write(text.encode('latin-1' if via == 'latin1' else 'utf-8'))
             st.buffer.flush()
         else:
             st.write(text)
